@@ -13,6 +13,7 @@ CLAUSES = {
     2003: "a consumer ended with an unexpected exception (e.g. ValueError from task_done called too often)",
     2004: "an item was handed to more than one block / an unknown item was handed out",
     2005: "a block was entered without an item having been put",
+    2006: "idle: a consumer is waiting for an item although an item that was put has not been handed to any block",
     77: "reachability twin",
 }
 FUNCTIONS = ["Queue.__aenter__", "Queue.__aexit__", "Queue.item_processed"]
@@ -96,6 +97,9 @@ def tpl_queue(maxsize, x1, a1, x2, a2, x3, a3, x4, a4, x5, a5, t, _twin=False):
                     w.fail(2004)
             if st["entered"] > st["puts"]:
                 w.fail(2005)
+            waiting = sum(1 for rec in cons if rec[1] is None and not rec[0].done())
+            if waiting and st["puts"] > st["entered"]:
+                w.fail(2006)
 
         steps = ((x1, a1), (x2, a2), (x3, a3), (x4, a4), (x5, a5))
         for k, (x, a) in enumerate(steps):
